@@ -164,7 +164,9 @@ class C08(Check):
                 if s.tag == 'iterate':
                     kind = s.msg[s.msg.find('(') + 1:s.msg.rfind(')')]
                     exit_kind = kind
-                    sur = max(0, sum(s.vote[c] - s.q for c, x in s.st.items() if x == 'elected'))     # the total surplus is never taken below zero
+                    sur = sum(s.vote[c] - s.q for c, x in s.st.items() if x == 'elected')
+                    if common.g_lt(t, sur, 0):      # a total below zero (in the arithmetic's own comparison) is taken as zero
+                        sur = 0
                     if s.surplus != sur:
                         viol('surplus-value', 'recorded surplus %s, sum over elected of tally-quota (not below 0) is %s' % (s.surplus, sur), s)
                     if kind == 'omega':
